@@ -97,3 +97,18 @@ def alias_item(ctx, k, x):
     row = ctx.rows[k]
     row.append(x)
     return 0
+
+
+COPY_ATTRS = {"v", "w"}
+
+
+class HInfo:
+    def __init__(self, v=None, w=None):
+        self.v = v
+        self.w = w
+
+
+def copy_attrs(src, dst):
+    for attr in COPY_ATTRS:
+        if (value := getattr(src, attr, None)) is not None:
+            setattr(dst, attr, value)
